@@ -74,6 +74,8 @@ pub struct C16 {
     pub touch: bool,
     /// once the caller lane is exhausted, drop on every further Pending (then sync) instead of polling on
     pub late_cancel: bool,
+    /// replay the sink lane this many more times before the benign default takes over
+    pub sink_repeat: u32,
     /// call flush() between a cancelled write and the resuming sync()
     pub flush_mid: bool,
     pub sink: Vec<Step>,
@@ -380,11 +382,12 @@ impl C16 {
         }
         let n = self.items.len() as u64;
         // implementation-agnostic: even a writer that offered one byte per poll would stay below this
-        let budget = self.sink.len() as u64 + self.caller.len() as u64 + 10 * (n + 1) + 64 + 2 * off as u64;
+        let budget = self.sink.len() as u64 * (1 + self.sink_repeat as u64) + self.caller.len() as u64 + 10 * (n + 1) + 64 + 2 * off as u64;
         let budget = budget + 2 * self.flush_lane.len() as u64;
         let core = SinkCore::new(self.sink.clone(), None, budget, obs.clone());
         core.borrow_mut().layout = layout;
         core.borrow_mut().flush_lane = self.flush_lane.clone();
+        core.borrow_mut().repeat_left = self.sink_repeat;
         let mut writer = AsyncWriter::with_buffer(SimAsyncSink(core.clone()), garbage(self.init_buf as usize));
         if self.init_buf > 0 {
             obs.borrow_mut().fault(fk::garbage_buffer);
@@ -597,6 +600,7 @@ impl Scenario for C16 {
             .set("knob_mid", self.knob_mid)
             .set("touch", self.touch)
             .set("late_cancel", self.late_cancel)
+            .set("sink_repeat", self.sink_repeat)
             .set("flush_mid", self.flush_mid)
             .set("sink", lane_to_json(&self.sink))
             .set("flush_lane", lane_to_json(&self.flush_lane))
@@ -613,6 +617,7 @@ impl Scenario for C16 {
             knob_mid: j.get("knob_mid").and_then(|c| c.as_u64()).map(|c| c as u32),
             touch: j.get("touch").and_then(|c| c.as_bool()).unwrap_or(false),
             late_cancel: j.get("late_cancel").and_then(|c| c.as_bool()).unwrap_or(false),
+            sink_repeat: j.get("sink_repeat").and_then(|c| c.as_u64()).unwrap_or(0) as u32,
             flush_mid: j.get("flush_mid").and_then(|c| c.as_bool()).unwrap_or(false),
             sink: lane_from_json(j.get("sink"))?,
             flush_lane: if j.get("flush_lane").is_some() { lane_from_json(j.get("flush_lane"))? } else { Vec::new() },
@@ -695,6 +700,11 @@ impl Scenario for C16 {
         if self.late_cancel {
             out.push(C16 { late_cancel: false, ..self.clone() });
         }
+        if self.sink_repeat > 0 {
+            out.push(C16 { sink_repeat: 0, ..self.clone() });
+            out.push(C16 { sink_repeat: self.sink_repeat / 2, ..self.clone() });
+            out.push(C16 { sink_repeat: self.sink_repeat - 1, ..self.clone() });
+        }
         if self.flush_mid {
             out.push(C16 { flush_mid: false, ..self.clone() });
         }
@@ -709,7 +719,7 @@ fn val(ty: Ty, size: u32, seed: u64) -> Item {
 }
 
 fn base(items: Vec<Item>) -> C16 {
-    C16 { items, max_len_mode: 0, init_buf: 0, use_ctx: false, knob_at: 0, rewrap_at: None, knob_mid: None, touch: false, late_cancel: false, flush_mid: false, sink: vec![], flush_lane: vec![], caller: vec![] }
+    C16 { items, max_len_mode: 0, init_buf: 0, use_ctx: false, knob_at: 0, rewrap_at: None, knob_mid: None, touch: false, late_cancel: false, sink_repeat: 0, flush_mid: false, sink: vec![], flush_lane: vec![], caller: vec![] }
 }
 
 fn total_len(items: &[Item]) -> usize {
@@ -726,6 +736,7 @@ fn total_len(items: &[Item]) -> usize {
 const W_TYS: &[Ty] = &[
     Ty::U64, Ty::Str, Ty::String, Ty::Bytes, Ty::Tuple3, Ty::Borrowed, Ty::Tree, Ty::VecU32, Ty::OptStr, Ty::MapRec, Ty::Gappy, Ty::Shape, Ty::Unit,
     Ty::I32, Ty::F64, Ty::Tokens, Ty::EncOps, Ty::Empty, Ty::BTreeMapU32Str, Ty::Duration, Ty::VecString, Ty::TaggedRec, Ty::Point, Ty::Color,
+    Ty::SelfDesc, Ty::Embedded,
 ];
 
 fn generate_single(r: &mut Rng, tier: Tier) -> C16 {
@@ -801,6 +812,7 @@ fn generate_single(r: &mut Rng, tier: Tier) -> C16 {
         knob_mid: if r.chance(1, 4) { Some(r.below(3) as u32) } else { None },
         touch: r.chance(1, 3),
         late_cancel: r.chance(1, 3),
+        sink_repeat: gen_repeat(r, shape.history || shape.marathon),
         flush_mid: r.chance(1, 3),
         sink,
         flush_lane: if r.chance(1, 3) {
